@@ -195,6 +195,9 @@ def impl_part(ck, tier):
     scen.append(("n2_long", dict(temps=[1, 4], starts=[[-3], [4]], kind="gibbs", display=False, seed=s + 9,
                                  prog=[["advance", 161, 3], ["return"], ["advance", 7, 10], ["return"], ["shutdown"]])))      # 53 cycles + 2 left over; then 0 cycles + 7
     scen.append(("n3_offset", dict(base3, eoffset=3000, seed=s + 10, force="accept", prog=[["steps", 2], ["swap"], ["steps", 2], ["swap"], ["steps", 1], ["swap"], ["return"], ["shutdown"]])))
+    # a ladder that is not sorted by temperature (allowed, warned about): every chain keeps its own temperature in the exchange rule
+    scen.append(("n3_unsorted", dict(temps=[4, 1, 2], starts=[[-3, 4], [4, -3], [0, 1]], kind="gibbs", display=False, seed=s + 11, force="edge",
+                                     prog=[["steps", 1], ["swap"], ["steps", 1], ["swap"], ["steps", 1], ["swap"], ["swap"], ["return"], ["shutdown"]])))
     if tier == "thorough":
         scen.append(("n5_pca", dict(temps=[1, 1, 2, 4, 4], starts=[[-3, 4], [4, -3], [0, 1], [3, 3], [-2, -2]], kind="pca", display=True,
                                     seed=s + 6, prog=[["advance", 64, 7], ["return"], ["advance", 5, 10], ["return"], ["shutdown"]])))
@@ -267,4 +270,10 @@ def run(tier):
                       "operating-system level failures (a killed worker) are outside the property"]
     model_part(ck, tier)
     impl_part(ck, tier)
+    # related machinery of the same module: a pool of chains ends as the chains advanced one after another (whatever the completion order
+    # of the workers), and a tempered chain that was saved and reloaded (a resumed tempering run) keeps its temperature and its tempered
+    # log-probabilities
+    from harness import c15, c03
+    c15.pool_part(ck, tier)
+    c03.reload_part(ck, tier)
     return ck.finish()
